@@ -51,6 +51,7 @@ var c05Cfg = mkSpace("config", []fieldDim{
 	{"SPFlag", []string{"", "false", "0", "true", "1"}},
 	{"SPCert", []string{"", "none"}},
 	{"IdPFlag", []string{"", "false", "0", "true", "1"}},
+
 })
 
 var c05Msg = mkSpace("message", []fieldDim{
